@@ -235,6 +235,38 @@ def pipe(ctx, backend, direction, **kw):
     return ctx.get(k, lambda: Pipe(ctx, backend, direction, **kw))
 
 
+def run_all(ctx):
+    """Value-number every emitter method of both back-ends in every direction (with / without stub chain and border) once;
+    returns the list of (backend, direction, chain, border, pipe).  Used by the crash lints to harvest facts."""
+    def build():
+        P = ctx.P
+        out = []
+        for backend in (SVG, TEX):
+            meths = ["add_main", "add_timeline", "add_axis", "add_links", "add_labels", "add_dots"]
+            if backend == TEX:
+                meths = ["add_header", "add_header_colors", "add_header_text"] + meths
+            for d in DIRECTIONS:
+                for chain in (None, 1):
+                    for border in (False, True):
+                        p = pipe(ctx, backend, d, n=2, chain=chain, show_border=border)
+                        for m in meths:
+                            if P.method(p.cls, m) is None:
+                                continue
+                            (p.run_svg if backend == SVG else p.run_tex)(m)
+                        out.append((backend, d, chain, border, p))
+        return out
+
+    return ctx.get("emit.run_all", build)
+
+
+def string_format_sites(ctx):
+    """AST nodes of `%` operations that format a string in some evaluated emitter run."""
+    out = set()
+    for backend, d, chain, border, p in run_all(ctx):
+        out |= p.ev.strmod_nodes
+    return out
+
+
 def kind_index_rule(ctx, R):
     from .c09 import colour_slots
     return colour_slots(ctx, R, rule_id="C20.KIND")
